@@ -278,9 +278,6 @@ def check(tier: str) -> int:
                             "jobs_total": sum(h["njobs"] for h in hist),
                             "failing_jobs": sum(len(h["params"]["fail_at"]) for h in hist)}
     run.sample({"params": hist[0]["params"], "events": hist[0]["events"][:12], "results": hist[0]["results"][:2]})
-    # the registry / profile mechanism by which workers reproduce the master's name resolution
-    from . import registry_model
-    registry_model.run(run, tier)
     return run.finish()
 
 
